@@ -59,6 +59,28 @@ def _is_pad_loop(st):
     return name, t.comparators[0], b.value.args[0]
 
 
+def _is_for_pad_loop(st):
+    """for _ in range(N - len(X)): X.append(C)   (counted spelling of the padding idiom; nothing happens when N <= len(X))"""
+    if not isinstance(st, ast.For) or st.orelse or len(st.body) != 1 or not isinstance(st.target, ast.Name):
+        return None
+    it = st.iter
+    if not (isinstance(it, ast.Call) and isinstance(it.func, ast.Name) and it.func.id == "range" and len(it.args) == 1 and not it.keywords):
+        return None
+    a = it.args[0]
+    if not (isinstance(a, ast.BinOp) and isinstance(a.op, ast.Sub) and isinstance(a.right, ast.Call) and isinstance(a.right.func, ast.Name)
+            and a.right.func.id == "len" and len(a.right.args) == 1 and isinstance(a.right.args[0], ast.Name)):
+        return None
+    name = a.right.args[0].id
+    b = st.body[0]
+    if not (isinstance(b, ast.Expr) and isinstance(b.value, ast.Call) and isinstance(b.value.func, ast.Attribute)
+            and b.value.func.attr == "append" and isinstance(b.value.func.value, ast.Name)
+            and b.value.func.value.id == name and len(b.value.args) == 1):
+        return None
+    if any(isinstance(x, ast.Name) and x.id == st.target.id for x in ast.walk(b)):
+        return None
+    return name, a.left, b.value.args[0]
+
+
 def _is_extend_loop(st):
     """for x in Y: L.append(x)   ==   L.extend(Y)"""
     if not isinstance(st, ast.For) or st.orelse or len(st.body) != 1 or not isinstance(st.target, ast.Name):
@@ -570,6 +592,8 @@ class Enumerator:
         return vals, False
 
     def _for(self, st):
+        if self.summarize_pad and _is_for_pad_loop(st):
+            return [Path([Ev("pad", st, None, _is_for_pad_loop(st))], "fall")]
         ci = self._const_iter(st)
         if ci is not None:
             vals, enum = ci
